@@ -342,8 +342,12 @@ class AirTouchSocket(Generic[comms.Hdr]):
             # wait_closed could raise an error if the socket has been closed by
             # the other side. This will already have been logged, so just
             # suppress it here.
+            # The wait is shielded because the stream's close future is shared:
+            # if this task is cancelled (by close()) while waiting, an unshielded
+            # wait would cancel that future and make the wait_closed() of the
+            # closing task raise CancelledError, leaving the socket half closed.
             with contextlib.suppress(OSError):
-                await writer.wait_closed()
+                await asyncio.shield(writer.wait_closed())
 
         if self._writer is not writer:
             # Another task completed the disconnect (and possibly a reconnect)
